@@ -49,6 +49,36 @@ def _copy_of(f, l, target, depth=6):
                              not op_place(d["rv"]["a"])["p"] and _copy_of(f, op_local(d["rv"]["a"]), target, depth - 1) for d in dfs)
 
 
+def _r30e(ctx, P):
+    rid = "R30.e"
+    ctx.rule(rid, "ONE ORDER: every ordering the crate defines on the composite key types — any function taking two "
+                  "&CompositeKey / &CompositeKeyPart and returning Ordering or Option<Ordering>, trait impl or inherent, hand-written or "
+                  "derived — reaches f64::total_cmp for the histogram part (through the one part comparison). A second ordering "
+                  "(a derived PartialOrd comparing the stored bit patterns, say) disagrees with the sort and the after-filter on "
+                  "negative histogram keys, so whatever it is used for — pruning, merging — cuts the pages differently")
+    n = 0
+    for q, f in sorted(P.fns.items()):
+        if f.crate != "searchlite_core" or f.kind == "closure" or is_test_or_bench(f) or f.arg_count != 2:
+            continue
+        tys = [f.arg_ty(1), f.arg_ty(2)]
+        if not all(re.fullmatch(r"&(searchlite_core::)?query::aggs::CompositeKey(Part)?", t.replace("'_ ", "").replace("&'a ", "&")) or
+                   re.fullmatch(r"&searchlite_core::query::aggs::CompositeKey(Part)?", t) for t in tys):
+            continue
+        rt = f.ret_ty or ""
+        if not ("core::cmp::Ordering" in rt):
+            continue
+        n += 1
+        ctx.saw(f)
+        ok = any(c.endswith("f64::total_cmp") or c.endswith("<impl f64>::total_cmp") for c in P.reach(q)) or \
+            any(callee_of(t).endswith("total_cmp") for b, t in f.calls())
+        ctx.ob(rid, "%s:%s" % (rid, f.short), ok,
+               "%s orders histogram parts through f64::total_cmp" % f.short if ok else
+               "%s is a second ordering on the composite key types that does not go through f64::total_cmp (bit patterns of negative "
+               "floats sort the other way round): it disagrees with the order in which buckets are listed and pages are cut" % f.short,
+               "%s:%s" % (f.file, f.line))
+    ctx.floor(rid, n, 3, "orderings on CompositeKey / CompositeKeyPart")
+
+
 def run(ctx, progs):
     P = progs.get("default")
     f = P.inlined(FIN, depth=1, keep=(KEYFN,))      # an extracted `skip buckets up to the after key` helper is read in place
@@ -250,5 +280,6 @@ def run(ctx, progs):
            "after_key = key of the last returned bucket, present exactly when more buckets remain" if ak_ok else
            "after_key is not (Some(key of buckets.last() after the cut) exactly under has_more, None otherwise)",
            where.loc() if where else "%s:%s" % (f.file, f.line))
+    _r30e(ctx, P)
     ctx.assumptions += ["CompositeKey's Ord is a total order on the keys produced by composite_key_from_value (bit patterns for histogram parts)",
                         "what the per-segment collectors and the merge keep before finalize_composite is outside this check (C12)"]
